@@ -22,7 +22,7 @@ Stages, in the order of the code:
 1. `Pipeline.parseProgram` — `parse_to_sexpression` (a `JaqalParseError` with its position), `Builder.build`, the
    "too many registers" check of `parse_jaqal_string`;
 2. `expand_subcircuits`, `fill_in_let(ov)`, `expand_macros` (`run_jaqal_circuit`);
-3. `IndependentSubcircuitsBackend.__call__`: `DiscoverSubcircuits().visit(circ)` = the prepare / measure bookkeeping
+3. `IndependentSubcircuitsBackend.__call__`: `DiscoverSubcircuits().visit(circ)` = the register-size limit (`tooLarge`), the prepare / measure bookkeeping
    (`Walk.discover` on the skeleton `skeleton body`: gate = `prepare_all` | `measure_all` | other) and the used-qubit walk with the
    disjointness checks (`UsedQubits.checkDisjoint`).  The real visitor interleaves the two; which of two `JaqalError`s comes
    first is not observable in the error CLASS, which is all the correspondence compares;
@@ -213,9 +213,19 @@ def makeSubcircuits (c : Circuit) (body : List Walk.Stmt) (tbl : List GateRec) :
 
 /-! ### The pipeline -/
 
+/-- the first lines of `DiscoverSubcircuits.visit_Circuit` (added today): a fundamental register of more than
+`sys.maxsize.bit_length()` = 63 qubits is refused before its qubits are listed -/
+def tooLarge : List Val → M Unit
+  | [] => pure ()
+  | .regF _ size :: rest => do
+    let k ← UsedQubits.pyInt size
+    if k > 63 then throw (.jaqal "register-too-large-to-execute") else tooLarge rest
+  | _ :: rest => tooLarge rest
+
 /-- `backend(expanded).execute()` -/
 def execute (c : Circuit) : M RunSummary := do
   let (body, tbl) ← skeleton c
+  tooLarge c.registers
   let traces ← match Walk.discover body with
     | .ok t => pure t
     | .error e => throw (ofDiscErr e)
